@@ -1,4 +1,5 @@
 CONSTANT SigCache = FALSE
+CONSTANT Devices <- FileDevices
 INIT GInit
 NEXT GNext
 INVARIANT TermLen
@@ -8,6 +9,7 @@ INVARIANT KeyMatters
 INVARIANT SingleKeyV21
 INVARIANT TableLen
 INVARIANT HashOfTable
+INVARIANT RevisionDecidesGen
 INVARIANT BlockLen
 INVARIANT FreshSignature
 INVARIANT ParsedIsBuilt
